@@ -55,7 +55,8 @@ theorem witness_eq_zero_real (F : FloatOps R) (x : R) (hx : F.eq x (F.ofInt 0) =
 theorem witness_optimistic_rewrite (F : FloatOps R) :
     Frontend.rwBin F Quirks.real [.mixed] [] .eq (.bin .add (.loc 0) (.lit (.int 1))) (.lit (.int 0))
       = .un .not (.bin .add (.loc 0) (.lit (.int 1))) := by
-  simp [Frontend.rwBin, Frontend.typeOf, Frontend.arithTy, Frontend.numTy, Frontend.isZeroLit, Frontend.isLit, Quirks.real]
+  simp [Frontend.rwBin, Frontend.typeOf, Frontend.arithTy, Frontend.numTy, Frontend.isZeroLit, Frontend.isLit, Quirks.real,
+    Frontend.tyCode, NV.Gen.C03.rwEqZeroL, NV.Gen.C03.rwEqZeroR, NV.Gen.C03.typeNumber]
 
 /-- finding rev-range-wrap (REPAIRED in the repository; `revRangeWrap := true` is the code before the repair):
     `a[<INT64_MIN..]` on a one-element array returned the whole array (`size - i` wraps), the reference result is empty -/
